@@ -30,6 +30,10 @@ if '--verify' in sys.argv:
     sys.exit(ctl['exit'])
 if '--clearsign' in sys.argv:
     if ctl.get('sign_exit', 0) != 0:
+        if ctl.get('sign_partial'):
+            # a failure after gpg has begun to stream the cleartext (locked key, agent gone): header and text, no signature
+            sys.stdout.buffer.write(b'-----BEGIN PGP SIGNED MESSAGE-----\nHash: SHA512\n\n' + data)
+            sys.stdout.flush()
         sys.stderr.write('signing failed\n')
         sys.exit(ctl['sign_exit'])
     sys.stdout.buffer.write(b'-----BEGIN PGP SIGNED MESSAGE-----\nHash: SHA512\n\n')
@@ -50,6 +54,9 @@ STATUS = {
     'N': '[GNUPG:] NEWSIG', 'K': '[GNUPG:] KEY_CONSIDERED 81E12C16BD8DCD60BE180845136880E72A7B1384 0',
     'S': '[GNUPG:] SIG_ID abc 2017-11-08 1510133326', 'x': '[GNUPG:] EXPSIG 136880E72A7B1384 gemato test key',
     'j': 'gpg: junk line', 'e': '',
+    # the signer's user id is printed verbatim at the end of GOODSIG / EXPKEYSIG ...: text that reads like a status line
+    'g': '[GNUPG:] GOODSIG 136880E72A7B1384 Mallory [GNUPG:] TRUST_ULTIMATE 0 pgp [GNUPG:] VALIDSIG ' + VALID.split(' ', 2)[2],
+    'b': '[GNUPG:] BADSIG 136880E72A7B1384 Mallory [GNUPG:] GOODSIG 136880E72A7B1384 x',
 }
 
 
@@ -100,10 +107,12 @@ def c05(rng, tier, repo):
             # 131 000 status sequences x 3 exit codes with one stub process each would take 1.5 h; every fifth sequence
             # (all lengths and all positions of every keyword still occur) plus the named ones keeps it under 20 min
             cases = cases[::5] + [tuple('GVU'), tuple('GVf'), tuple('GVF'), tuple('GVM'), tuple('GVu'), tuple('GVn'),
-                                  tuple('GVUX'), tuple('XGVU'), tuple('GVUR'), tuple('GU'), tuple('VU'), tuple('GV')]
+                                  tuple('GVUX'), tuple('XGVU'), tuple('GVUR'), tuple('GU'), tuple('VU'), tuple('GV'),
+                                  tuple('gVu'), tuple('gVn'), tuple('gV'), tuple('gu'), tuple('g'), tuple('bVU'), tuple('gVU')]
         if tier == 'quick':
             cases = cases[::7] + [tuple('GVU'), tuple('GVf'), tuple('GVF'), tuple('GVM'), tuple('GVu'), tuple('GVn'), tuple('GVF'),
-                                  tuple('GVUX'), tuple('XGVU'), tuple('GVUR'), tuple('GU'), tuple('VU'), tuple('GV')]
+                                  tuple('GVUX'), tuple('XGVU'), tuple('GVUR'), tuple('GU'), tuple('VU'), tuple('GV'),
+                                  tuple('gVu'), tuple('gVn'), tuple('gV'), tuple('gu'), tuple('g'), tuple('bVU'), tuple('gVU')]
         for seq in cases:
             for ex in (0, 1, 2):
                 with open(ctl + '.status', 'w') as f:
@@ -138,7 +147,7 @@ def c05(rng, tier, repo):
                             want = 'revoked'
                             break
                     if want is None:
-                        good, valid = 'G' in seq, 'V' in seq
+                        good, valid = ('G' in seq or 'g' in seq), 'V' in seq
                         trusted = any(k in 'UFM' for k in seq)      # TRUST_FULLY is gpg's keyword; 'TRUST_FULL' (f) is not a gpg status
                         want = 'unknown' if not (good and valid) else ('accepted' if trusted else 'untrusted')
                 n += 1
@@ -162,16 +171,22 @@ def c05(rng, tier, repo):
         with open(ctl, 'w') as f:
             json.dump({'status': [], 'exit': 0}, f)
         open(ctl + '.log', 'w').close()
-        with O.IsolatedGPGEnvironment() as ienv:
-            home = ienv.home
-            ienv.verify_file(io.StringIO('x'))
-        logs = [json.loads(l) for l in open(ctl + '.log')]
-        n += 1
-        if not logs or any(l['GNUPGHOME'] != home or l['GNUPGHOME'] == outer for l in logs if '--verify' in l['argv']):
-            viol.append({'what': 'C05 isolated environment ran gpg with GNUPGHOME %r' % [l['GNUPGHOME'] for l in logs],
-                         'key': 'gnupghome', 'props': ['C05']})
-        if C.snapshot(outer) != before:
-            viol.append({'what': 'C05 the user keyring directory was touched', 'key': 'outer-home', 'props': ['C05']})
+        for proxy in (None, 'http://127.0.0.1:9'):
+            open(ctl + '.log', 'w').close()
+            with O.IsolatedGPGEnvironment(proxy=proxy) as ienv:
+                home = ienv.home
+                ienv.verify_file(io.StringIO('x'))
+                try:
+                    ienv.import_key(io.BytesIO(b'not a key'))
+                except BaseException:
+                    pass
+            logs = [json.loads(l) for l in open(ctl + '.log')]
+            n += 1
+            if not logs or any(l['GNUPGHOME'] != home or l['GNUPGHOME'] == outer for l in logs):
+                viol.append({'what': 'C05 isolated environment (proxy=%r) ran gpg with GNUPGHOME %r' % (proxy, [l['GNUPGHOME'] for l in logs]),
+                             'key': 'gnupghome' if proxy is None else 'gnupghome:proxy', 'props': ['C05']})
+            if C.snapshot(outer) != before:
+                viol.append({'what': 'C05 the user keyring directory was touched', 'key': 'outer-home', 'props': ['C05']})
         del os.environ['GNUPGHOME']
         # require-signed-manifest through the CLI
         for signed, status, ex, want in ((True, 'GVU', 0, 0), (True, 'GVu', 0, 1), (True, 'GV', 0, 1), (True, 'GVU', 1, 1),
@@ -215,7 +230,9 @@ def c14(rng, tier, repo):
         from gemato.exceptions import OpenPGPSigningFailure
         body_tpl = 'DATA a 1 SHA1 86f7e437faa5a7fce15d1ddcb9eaeaea377667b8\nMANIFEST sub/Manifest%s %d SHA1 %s\n'
         for sign_opt, orig_signed, keyid, sign_exit, subfmt, odd in itertools.product(
-                (None, True, False), (True, False), (None, 'KEY1'), (0, 2), ('', '.gz'), (False, True)):
+                (None, True, False), (True, False), (None, 'KEY1'), (0, 2, 'partial'), ('', '.gz'), (False, True)):
+            sign_partial = sign_exit == 'partial'
+            sign_exit = 2 if sign_partial else sign_exit
             t = os.path.join(d, 't%d' % n)
             os.makedirs(os.path.join(t, 'sub'))
             name = 'b c\\d' if odd else 'b'
@@ -234,7 +251,7 @@ def c14(rng, tier, repo):
                 else:
                     f.write(body)
             with open(ctl, 'w') as f:
-                json.dump({'status': [STATUS[k] for k in 'GVU'], 'exit': 0, 'sign_exit': sign_exit}, f)
+                json.dump({'status': [STATUS[k] for k in 'GVU'], 'exit': 0, 'sign_exit': sign_exit, 'sign_partial': sign_partial}, f)
             open(ctl + '.log', 'w').close()
             with open(os.path.join(t, 'sub', 'new file'), 'w') as f:
                 f.write('n')
@@ -251,12 +268,14 @@ def c14(rng, tier, repo):
                 got = 'EXC:' + type(e).__name__ + str(e)[:80]
             n += 1
             distinct += 1
-            desc = {'sign': sign_opt, 'originally_signed': orig_signed, 'keyid': keyid, 'gpg_sign_exit': sign_exit, 'sub': subfmt}
+            desc = {'sign': sign_opt, 'originally_signed': orig_signed, 'keyid': keyid, 'gpg_sign_exit': sign_exit, 'sub': subfmt,
+                    'gpg_partial_output': sign_partial}
             if len(samples) < 2:
                 samples.append(dict(desc, outcome=got))
             if want_signed and sign_exit != 0:
                 if got != 'signing-failure':
-                    viol.append(dict(desc, what='C14 signing failed in gpg but update reported %r' % got, key='sign-fail', props=['C14']))
+                    viol.append(dict(desc, what='C14 signing failed in gpg but update reported %r' % got,
+                                     key='sign-fail' + (':partial-output' if sign_partial else ''), props=['C14']))
                 continue
             if got != 'saved':
                 viol.append(dict(desc, what='C14/C18 update failed: %r' % got, key='c14-status', props=['C14', 'C18']))
@@ -280,6 +299,46 @@ def c14(rng, tier, repo):
             with C.open_any(os.path.join(t, 'sub', 'Manifest' + subfmt), 'rb') as f:
                 if f.read().startswith(b'-----BEGIN PGP'):
                     viol.append(dict(desc, what='C14 sub-Manifest was signed', key='sub-signed', props=['C14']))
+        # a signed top-level Manifest that is stored compressed and changes its name in this save (watermark above / below its size)
+        import gzip
+        for sign_opt, orig_signed, wm in itertools.product((None, True, False), (True, False), (10 ** 6, None)):
+            t = os.path.join(d, 'z%d' % n)
+            os.makedirs(t)
+            with open(os.path.join(t, 'a'), 'w') as f:
+                f.write('a')
+            body = 'DATA a 1 SHA1 86f7e437faa5a7fce15d1ddcb9eaeaea377667b8\n'
+            with gzip.open(os.path.join(t, 'Manifest.gz'), 'wt') as f:
+                f.write(('-----BEGIN PGP SIGNED MESSAGE-----\nHash: SHA512\n\n' + body +
+                         '-----BEGIN PGP SIGNATURE-----\n\nFAKE\n-----END PGP SIGNATURE-----\n') if orig_signed else body)
+            with open(ctl, 'w') as f:
+                json.dump({'status': [STATUS[k] for k in 'GVU'], 'exit': 0, 'sign_exit': 0}, f)
+            open(ctl + '.log', 'w').close()
+            with open(os.path.join(t, 'new'), 'w') as f:
+                f.write('n')
+            want_signed = sign_opt if sign_opt is not None else orig_signed
+            try:
+                m = ManifestRecursiveLoader(os.path.join(t, 'Manifest.gz'), openpgp_env=O.SystemGPGEnvironment(), sign_openpgp=sign_opt,
+                                            hashes=['SHA1'], compress_watermark=wm, compress_format='gz')
+                m.update_entries_for_directory('')
+                m.save_manifests()
+                got = 'saved'
+            except BaseException as e:
+                got = 'EXC:' + type(e).__name__ + str(e)[:80]
+            n += 1
+            distinct += 1
+            desc = {'sign': sign_opt, 'originally_signed': orig_signed, 'top': 'Manifest.gz', 'watermark': wm}
+            if got != 'saved':
+                viol.append(dict(desc, what='C14/C18 update failed: %r' % got, key='c14-status:compressed-top', props=['C14', 'C18']))
+                continue
+            tops = sorted(x for x in os.listdir(t) if x.startswith('Manifest'))
+            if len(tops) != 1:
+                viol.append(dict(desc, what='C13/C14 top-level Manifest files after the save: %r' % tops, key='top-files:compressed-top', props=['C14']))
+                continue
+            with C.open_any(os.path.join(t, tops[0]), 'rb') as f:
+                is_signed = f.read().startswith(b'-----BEGIN PGP SIGNED MESSAGE-----')
+            if is_signed != bool(want_signed):
+                viol.append(dict(desc, what='C14 top-level %s (was Manifest.gz) signed=%s, expected %s' % (tops[0], is_signed, want_signed),
+                                 key='top-signed:renamed' if tops[0] != 'Manifest.gz' else 'top-signed:compressed-top', props=['C14']))
     return viol, n, distinct, samples
 
 
